@@ -120,6 +120,10 @@ func (v *Verifier) VerifyIfaceContract(key string, so *SolveOpts) *UnitResult {
 				}
 			}
 			for i, r := range c.Requires {
+				if ic.Opts != nil && ic.Opts["implrequires"] == "assume" {
+					u.Assumed["implementers' own preconditions ("+tname+": "+r.Text+") are assumed at calls through "+shortKey(key)] = true
+					continue
+				}
 				u.oblige(s, fmt.Sprintf("iface:%s/%s#pre.%d", shortKey(key), tname, i+1), "iface", 0,
 					"interface requires imply implementer requires: "+r.Text, u.evalBool(menv, r.E))
 			}
